@@ -134,8 +134,11 @@ class FastaIndex:
         idx_dict = {}
         with self.fai_file.open() as idx:
             for line in idx:
+                # Fields are separated by tabs. (A sequence name cannot
+                # contain one, but it can contain other white space which
+                # str.split() would cut it at, such as a no-break space.)
                 name, length, file_offset, residues_per_line, max_line_length = (
-                    line.split()
+                    line.split("\t")
                 )
                 idx_dict[name] = FastaInfo(
                     length,
